@@ -59,9 +59,12 @@ CLAIMED = {
              "requests containing an end knot: the library re-infers the degree there and then refuses in apply (covered by the "
              "correspondence and by C04_nonvacuous_refused)."),
     "C05": dict(
-        text="Theorems (Props/C05.v): after a successful knot_remove the old vector is the new one plus nodes (per-value counts, "
-             "length), well-formed; absent knots refused with ValueError; a success under tolerance t certifies error <= t for "
-             "the model's projection (never silently lossy); the inverse used by the projection is certified (M'M = MM' = I). "
+        text="Unbounded theorems (Props/C05.v): knot_remove UNDOES knot_insert exactly - same control points, same knot vector, "
+             "zero error, accepted under every tolerance (only a failed certificate of the model's inverse could refuse), for all "
+             "polynomial curves, node multisets and dimensions (from Boehm: the projection matrix, unconstrained and "
+             "interpolation-constrained, is a left inverse of the insertion matrix); after any successful knot_remove the old "
+             "vector is the new one plus nodes, well-formed; absent knots refused; a success under tolerance t certifies error <= t "
+             "(never silently lossy); certified inverse. "
              "Decided per generated case inside Coq: the implementation's new vector, refusal class and unchanged state; exact "
              "undo of a previous knot_insert (tuple equality with the original curve, for default / explicit / None tolerance); "
              "the exact integral of the squared deviation (open Newton-Cotes of sufficient order on every span, per coordinate) "
@@ -71,8 +74,9 @@ CLAIMED = {
         technique="Coq proof (knot-vector algebra, certified inverse, tolerance guard) + correspondence and exact deviation oracle by vm_compute",
         note="Continuous-projection theorems (normal equations, error = squared residual, interpolation and multiplier form of the "
              "constrained fit) are in Props/C11.v. Polynomial curves only: the weighted (rational) projection of the library is lossy (known finding K1) and is kept "
-             "out of the model. 'Succeeds whenever exactly removable' is decided per case (undo stream), not proved "
-             "(needs positive-definiteness of the Gram matrix). tolerance=None interpolation is required for degree >= 1 "
+             "out of the model. 'Succeeds whenever exactly removable' is proved for knots that come from an insertion "
+             "(C05_undo_always_accepted) up to the model's inverse certificates (positive-definiteness of the Gram matrix is not "
+             "proved; the correspondence run counts Uncertified = 0). tolerance=None interpolation is required for degree >= 1 "
              "only (a degree-0 piecewise constant cannot interpolate both ends of a merged span)."),
     "C06": dict(
         text="Unbounded theorems (Props/C06.v): on a Bezier knot vector the Cox-de Boor basis is the Bernstein basis (closed "
